@@ -92,6 +92,13 @@ def generate(seed):
         else:
             parts.append(g.general_part(ctx, cont, k))
 
+    # a part may hold a free-standing condition object that rules / callers use too
+    for i, pt in enumerate(parts):
+        if pt[0] in ("map", "list", "mol") and r.random() < 0.25:
+            kind_ok = [ci for ci, ct in enumerate(conds) if _kinds(ct) <= {"value"} and ct != ("null",)]
+            if kind_ok and not any(k == "condition" for k, _v in pt[1]):
+                parts[i] = (pt[0], pt[1] + (("condition", ("cref", r.choice(kind_ok))),))
+
     rules = []
     for _ in range(r.randint(1, 6)):
         t = g.rule(ctx, mods=True)
@@ -108,6 +115,12 @@ def generate(seed):
     for _ in range(r.randint(1, 3)):
         n = r.randint(0 if r.random() < 0.05 else 1, len(rules))
         schemas.append(("schema", tuple(r.sample(range(len(rules)), n))))
+    rlists = []
+    if r.random() < 0.2 and rules:
+        # one list object handed to two Schema constructors
+        rlists.append(tuple(r.sample(range(len(rules)), r.randint(1, len(rules)))))
+        schemas.append(("schema_l", 0))
+        schemas.append(("schema_l", 0))
     datas = [r.randrange(len(docs)) for _ in range(r.randint(0, 2))]
 
     world = {
@@ -117,6 +130,7 @@ def generate(seed):
         "parts": parts,
         "paths": paths,
         "rules": rules,
+        "rlists": rlists,
         "schemas": schemas,
     }
 
@@ -201,6 +215,23 @@ def _gen_op(r, world, kind):
 # --------------------------------------------------------------------------
 
 
+def _kinds(t):
+    from ..terms import COND_KIND
+
+    if t[0] in ("and", "or", "xor"):
+        return _kinds(t[1]) | _kinds(t[2])
+    if t[0] == "leaf":
+        return {COND_KIND[t[1]]}
+    return set()
+
+
+def _schema_rule_refs(term, si):
+    t = term["schemas"][si]
+    if t[0] == "schema_l":
+        return term["rlists"][t[1]]
+    return t[1]
+
+
 def _refs(term, t, acc):
     if isinstance(t, tuple):
         if t and t[0] == "cref":
@@ -233,7 +264,7 @@ def touches(term, op):
         acc.add(("docs", op[2]))
     if kind == "validate":
         acc.add(("schemas", op[1]))
-        for ri in term["schemas"][op[1]][1]:
+        for ri in _schema_rule_refs(term, op[1]):
             acc.add(("rules", ri))
             _refs(term, term["rules"][ri], acc)
     elif kind == "test":
@@ -247,6 +278,7 @@ def touches(term, op):
         _refs(term, term["conds"][op[1]], acc)
     elif kind == "part_filter":
         acc.add(("parts", op[1]))
+        _refs(term, term["parts"][op[1]], acc)
     return acc
 
 
@@ -451,6 +483,14 @@ def run(case):
                 )
                 break
 
+    divergent = 0
+    if sk["mode"] == "pre" and not has_edits:
+        for (c, k), n_solo in solo.items():
+            out = eng.outcomes.get((c, k))
+            if out is None or out == ("aborted",) or out[0] == "raise":
+                continue
+            if eng.op_steps.get((c, k)) is not None and eng.op_steps[(c, k)] != n_solo:
+                divergent += 1
     run_case = dict(case)
     run_case["decisions"] = list(eng.decisions)
     run_case["faults"] = [list(f) for f in faults]
@@ -480,6 +520,7 @@ def run(case):
         "container_fingerprint_checks": eng.light_checks,
         "ops_aborted": aborted,
         "caller_side_document_edits": len(shared.edit_log),
+        "diagnostic_ops_with_step_count_differing_from_solo": divergent,
         "context_switches": eng.switches,
         "mid_operation_switches": eng.mid_op_switches,
         "traced_writes_to_shared_objects": len(mon.writes),
